@@ -33,7 +33,7 @@ META = {
 }
 
 MODULE = "KafkaVerif.Props.C10"
-SCENARIOS = ["balancers", "writer", "writergrow", "codecs", "codecfail", "readerfront", "reader", "readergroup", "readerrebalance", "conn", "connproduce", "batch", "transport", "transportchurn", "transporttls", "clientapis"]
+SCENARIOS = ["balancers", "writer", "writergrow", "codecs", "codecfail", "readerfront", "reader", "readergroup", "readerrebalance", "conn", "connproduce", "connstray", "batch", "transport", "transportchurn", "transporttls", "clientapis"]
 
 HDR = re.compile(r"^(Read|Write|Previous read|Previous write|Atomic read|Atomic write|Previous atomic read|Previous atomic write) at 0x[0-9a-f]+ by (?:goroutine \d+|main goroutine):")
 FRAME = re.compile(r"^\s+(\S+):(\d+)(?: \+0x[0-9a-f]+)?$")
@@ -96,7 +96,7 @@ def run(ctx):
         "interface calls are approximated by edges to every implementing method, function values start from the empty lockset; pointers to fields are followed only from &x.f call arguments into struct fields (readerStack.reader → Conn.rbuf); escapes through locals/returns/maps/channels are not (notes U2)",
         "hand-offs listed in go/extract/accesses/access_annotations.json (closure_locks, call_acquires, tokens, ctor_funcs, atomic_types) hold as justified there; tokens stand for channel/Once/WaitGroup ordering",
         "Go memory model as abstracted in Model/Lockset.lean: program order, unlock→lock (RUnlock↛RLock), go statement; atomics are race free among themselves",
-        "race-detector validation covers only the schedules that occurred in the generated programs (quick: 16 scenarios × 8 rounds; thorough: × 500 rounds × 4 seeds, GOMAXPROCS 2/4/8/16)",
+        "race-detector validation covers only the schedules that occurred in the generated programs (quick: 17 scenarios × 8 rounds; thorough: × 500 rounds × 4 seeds, GOMAXPROCS 2/4/8/16)",
     ]
     broken = []
     # ---- 1. regenerate the table
